@@ -6,14 +6,14 @@ from vlib import ref_cfg, gen_cfg
 from vlib.ref_cfg import RefCFG
 
 ID = "C10"
-RULE = ("case = ordered pair (G1, G2) of CFG descriptions over string-valued symbols drawn from the same pools "
+RULE = ("case = ordered pair (G1, G2) of CFG descriptions over symbols drawn from the same pools "
         "(shared variable names; variables named like the library's fresh symbols #STARTUNION#, A#SUBS#0, ...), "
         "G2 possibly the start-less grammar CFG(), and a substitution choice. union, concatenate, get_closure, "
         "get_positive_closure, reverse, substitute and | + ~, also with the same object as both operands, are "
         "extracted and their bounded language (length <=4, least fixpoint) compared with the set-theoretic "
         "combination of the operands' reference bounded languages; contains() is compared on all words <=3. "
         "Non-trivial: both operand languages non-empty (<=4) and different. Distinct = SHA-1 of canonical JSON.")
-ASSUMPTIONS = ["variable values are strings (substitute concatenates them; nothing documents other types)",
+ASSUMPTIONS = ["variable values are strings or ints",
                "bounded languages up to length 4 decide equality of the results"]
 BUDGET = {"quick": 500, "thorough": 4000}
 WATCHDOG = 40
@@ -22,7 +22,7 @@ N = 4
 
 @st.composite
 def pair(draw):
-    vp = draw(st.sampled_from(["std", "std", "fresh", "long", "lower"]))
+    vp = draw(st.sampled_from(["std", "std", "fresh", "long", "lower", "ints"]))
     tp = draw(st.sampled_from(["ab", "ab", "abc", "tok", "shared"]))
     g1 = draw(gen_cfg.cfg_desc(var_pools=[vp], term_pools=[tp], max_prods=6, max_body=3))
     k = draw(st.integers(0, 9))
